@@ -589,7 +589,9 @@ def run(res, tier):
     # the direct-lookup fast path turns an escaped literal clause into a node name with RemoveEscapeChars(): its escape flag must have the parity the matcher's own scanners have
     # (the rule is C15's ESCAPE-PARITY, judged here for the one function routing depends on)
     from .C15 import escape_parity_scanners
-    if escape_parity_scanners(res, fsm, 'UNIQUE-AGREE', only=r'::RemoveEscapeChars$') < 1:
+    rec_ = fsm.fn1('muscle::RemoveEscapeChars', pred=lambda x: x.file.endswith('.cpp'))
+    names_ = [re.escape(h_.q) for h_ in IP.scope(fsm, rec_, r'^muscle::\w+$')]          # RemoveEscapeChars and the file-static helpers its loop body may have been moved into
+    if escape_parity_scanners(res, fsm, 'UNIQUE-AGREE', only='^(' + '|'.join(names_) + ')$') < 1:
         raise AnalysisBroken('UNIQUE-AGREE: the escape flag of RemoveEscapeChars was not found')
     sm_state.ranges_reset_rule(res, fsm)     # the per-clause matchers of a routing path are recycled objects: a stale numeric range misroutes every later Message
     res.explanation = ('Static decision of the routing structure: sender-identity overwrite dominates all three routing calls; on every path to a delivery either the target differs from the sender or the '
